@@ -92,6 +92,10 @@ pub(super) fn ctor_check(dims: &[usize], len: usize) {
     if dims.len() >= 2 {
         let r = Array::from((vec![len], vals.clone()));
         assert!(!(a == r), "C16 arrays with different dimensions are not equal");
+        // ... also when they share one value buffer (a reshaped view, or the Rc constructor)
+        let v = a.reshape(vec![len]);
+        let w = Array::from((vec![1, len], Rc::clone(&a.values)));
+        assert!(!(a == v) && !(a == w) && !(v == w), "C16 views of one buffer with different dimensions are not equal");
     }
 }
 
